@@ -34,6 +34,7 @@ type Val struct {
 	F []Val      // fields of struct / tuple
 	// Static side information (not part of the logical value):
 	Origin string // "T.f" when the value was loaded from that struct field (function-typed fields)
+	OriginBase string // the object the field was loaded from
 	Elems []Val // known elements when this ref is a freshly built literal slice/array
 	Boxed *Val  // value boxed by MakeInterface (static knowledge)
 }
